@@ -116,7 +116,8 @@ func c18MemberRunCase(in *c18MemberInput) []c18MemberObs {
 		obs = append(obs, o)
 	}
 	for _, id := range in.Backends {
-		lmd.PeerMap[id].Stop()
+		// a peer that updateBackends is still stopping is not paused yet and nobody reads its stop channel: do not wait
+		go lmd.PeerMap[id].Stop()
 	}
 	for _, srv := range servers {
 		_ = srv.Close()
